@@ -704,6 +704,9 @@ func FuzzVerifC03_RealmDatagram(f *testing.F) {
 	f.Add(v03STUN(0x0101, 0, v03Cookie, txid, []v03Attr{{0x0020, v03XorMapped(2, v03Fill(4, 1), 1, txid), -1}}))
 	f.Add(v03STUN(0x0101, 0, v03Cookie, txid, []v03Attr{{0x0020, v03XorMapped(1, v03Fill(4, 1), 1, txid), 65535}}))
 	f.Add(v03STUN(0x0101, 4, v03Cookie, txid, nil))
+	f.Add(v03STUN(0x0001, 0, v03Cookie, txid, nil))
+	f.Add(v03STUN(0x0111, 0, v03Cookie, txid, []v03Attr{{0x0009, []byte{0, 0, 4, 1}, -1}}))
+	f.Add(v03STUN(0x0011, 0, v03Cookie, txid, nil))
 	f.Add([]byte{})
 	f.Fuzz(func(t *testing.T, data []byte) {
 		if _, err := v03RunDecodePunch(data, m.meta()); err != nil {
@@ -726,6 +729,10 @@ func FuzzVerifC03_RealmDatagram(f *testing.F) {
 		})
 		if pv != nil {
 			t.Fatalf("C03: PunchPacketConn.ReadFrom panicked: %v\ndatagram (hex): %s\n%s", pv, v03Hex(data), stack)
+		}
+		// two steps: the datagram is demultiplexed now, discovery and a punch round run later
+		if err := v03DemuxAfterDatagram(data); err != nil {
+			t.Fatalf("C03: %v", err)
 		}
 	})
 }
